@@ -605,6 +605,9 @@ func rewriteAnnotated(rt *rapid.T, p *im.Program, ty *im.Type, fields []*im.Fiel
 			continue
 		}
 		if _, ok := f.Annots[annot]; ok {
+			if typeHasAnnots(p, f.Type) {
+				typeAnnotSeen[annot] = true
+			}
 			nv := p.GenValue(rt, f.Type, im.ValOpts{Depth: 2, NoNaN: true, Marker: markerFunc(rt, markers, label)}, label+"_alt")
 			out.Fields = append(out.Fields, wm.Field{ID: wf.ID, V: nv})
 			if depth > deepest {
@@ -619,6 +622,28 @@ func rewriteAnnotated(rt *rapid.T, p *im.Program, ty *im.Type, fields []*im.Fiel
 		out.Fields = append(out.Fields, wm.Field{ID: wf.ID, V: v})
 	}
 	return out, deepest
+}
+
+// typeAnnotSeen notes, per annotation, that the value under construction has a
+// field carrying it whose declared type has annotations of its own
+// (bookkeeping for the evidence classes; reset by C15 per case).
+var typeAnnotSeen = map[string]bool{}
+
+// typeHasAnnots: the declared type of a field is an annotated type expression
+// or names an annotated definition.
+func typeHasAnnots(p *im.Program, t *im.Type) bool {
+	if t == nil {
+		return false
+	}
+	if len(t.Annots) > 0 {
+		return true
+	}
+	if t.K == im.TRef && t.Ref != nil {
+		if d := p.Lookup(*t.Ref); d != nil && len(d.Annots) > 0 {
+			return true
+		}
+	}
+	return false
 }
 
 func markerFunc(rt *rapid.T, markers *[]string, label string) func(string) []byte {
@@ -638,6 +663,7 @@ func C15(t *testing.T) {
 		var markers []string
 		var v, alt, nolog wm.W
 		var depth int
+		typeAnnotSeen = map[string]bool{}
 		if tg.Def == nil {
 			v, depth = rewriteAnnotated(rt, p, nil, tg.Fields, base, "go.redact", &markers, "r1", 0)
 			alt, _ = rewriteAnnotated(rt, p, nil, tg.Fields, v, "go.redact", &markers, "r2", 0)
@@ -653,6 +679,11 @@ func C15(t *testing.T) {
 		cls := []string{"unit:c15", fmt.Sprintf("redacted-depth:%d", depth), fmt.Sprintf("zap:%v", !tg.Prog.Opts.NoZap), "shape:" + tg.Class()}
 		if len(markers) > 0 {
 			cls = append(cls, "markers:planted")
+		}
+		for _, a := range []string{"go.redact", "go.nolog"} {
+			if typeAnnotSeen[a] {
+				cls = append(cls, a+"-on-field-of-annotated-type")
+			}
 		}
 		ev.Case(d, nontriv, cls...)
 		if nontriv {
